@@ -22,6 +22,7 @@ EXTENDS Integers, Sequences, FiniteSets
 CONSTANTS Nodes,        \* node masters (strings)
           Endorsors,    \* endorsor accounts (strings)
           Endorsement,  \* params: proposer endorsement (balance threshold)
+          Cap,          \* thor.InitialMaxBlockProposers (101): PoA never schedules over more than Cap proposers
           None
 
 Range(s) == {s[i] : i \in DOMAIN s}
@@ -29,7 +30,7 @@ Range(s) == {s[i] : i \in DOMAIN s}
 VARIABLES head, tail,    \* storage: headKey / tailKey
           ent,           \* storage: node -> [e (endorsor | None), act, prev, next]   (identity is a constant of the node)
           bal,           \* VET balance of the endorsor accounts
-          mbp,           \* params: max block proposers
+          mbp,           \* params: max-block-proposers as stored (0 = unset)
           alist,         \* GHOST: listed nodes in insertion order
           revoked,       \* GHOST: nodes successfully revoked so far
           phase,         \* "between" blocks | "in" a block
@@ -59,6 +60,10 @@ Walk(p, k) == IF p = None \/ k = 0 THEN <<>> ELSE <<p>> \o Walk(ent[p].next, k -
 Links == Walk(head, Cardinality(Nodes) + 1)
 
 Endorsed(e) == e # None /\ bal[e] >= Endorsement           \* balance check before HAYABUSA
+
+\* thor.GetMaxBlockProposers(params, capToInitial = true), used by BOTH the packer (schedulePOA) and the validator
+\* (Candidates.Pick): unset/0 means Cap, anything above Cap is cut to Cap
+Limit == IF mbp = 0 \/ mbp > Cap THEN Cap ELSE mbp
 
 \* Candidates(checker, limit): for ptr != nil && len < limit { if checker(endorsor) append; ptr = next }
 RECURSIVE CandFrom(_, _, _)
@@ -101,11 +106,11 @@ RECURSIVE SatFrom(_, _, _)
 SatFrom(l, i, limit) ==
   IF i > Len(l) \/ limit = 0 THEN <<>>
   ELSE IF Endorsed(l[i].e) THEN <<i>> \o SatFrom(l, i + 1, limit - 1) ELSE SatFrom(l, i + 1, limit)
-SatOf(c) == IF c.sat = <<>> THEN SatFrom(c.list, 1, mbp) ELSE c.sat      \* `if len(satisfied) == 0` recompute
+SatOf(c) == IF c.sat = <<>> THEN SatFrom(c.list, 1, Limit) ELSE c.sat      \* `if len(satisfied) == 0` recompute
 Pick(c) == LET s == SatOf(c) IN [i \in DOMAIN s |-> [n |-> c.list[s[i]].n, act |-> c.list[s[i]].act]]
 FreshCands == [list |-> AllCandidates, sat |-> <<>>]
 Proposers(c) == Pick(c)
-PackerProposers == LET c == Candidates(mbp) IN [i \in DOMAIN c |-> [n |-> c[i].n, act |-> c[i].act]]
+PackerProposers == LET c == Candidates(Limit) IN [i \in DOMAIN c |-> [n |-> c[i].n, act |-> c[i].act]]
 NodesOf(ps) == {ps[i].n : i \in DOMAIN ps}
 ActiveOf(ps) == {ps[i].n : i \in {j \in DOMAIN ps : ps[j].act}}
 \* candidates.Update(addr, active)
@@ -115,7 +120,7 @@ EndorsorsOf(c) == {c.list[i].e : i \in DOMAIN c.list}
 \* the observable projection compared with the real contract / validator after every replayed step or block
 Proj == [links |-> Links, head |-> head, tail |-> tail,
          get |-> [n \in Nodes |-> [listed |-> Listed(n), e |-> ent[n].e, act |-> ent[n].act, next |-> NextOf(n)]],
-         all |-> AllCandidates, cands |-> Candidates(mbp), fresh |-> Proposers(FreshCands),
+         all |-> AllCandidates, cands |-> Candidates(Limit), fresh |-> Proposers(FreshCands),
          bal |-> bal, mbp |-> mbp]
 
 \* ---- actions -----------------------------------------------------------------------------------------------------
@@ -205,11 +210,12 @@ HeadTailConsistent ==
 \* derivations coincide
 CandidatesAreFirstEndorsed ==
   LET endorsed == SelectSeq(alist, LAMBDA n : Endorsed(ent[n].e))
-      want == SubSeq(endorsed, 1, IF Len(endorsed) < mbp THEN Len(endorsed) ELSE mbp)
-      got == Candidates(mbp)
+      want == SubSeq(endorsed, 1, IF Len(endorsed) < Limit THEN Len(endorsed) ELSE Limit)
+      got == Candidates(Limit)
   IN /\ [i \in DOMAIN got |-> got[i].n] = want
      /\ \A i \in DOMAIN got : got[i].e = ent[got[i].n].e /\ got[i].act = ent[got[i].n].act
      /\ PackerProposers = Proposers(FreshCands)
+     /\ Len(got) <= Cap /\ Limit >= 1 /\ Limit <= Cap         \* the cap: never more than Cap proposers, whatever the param
 \* a revoked node is unlisted for good: it is never the signer of a later block (BeginBlock needs signer in the list)
 RevokedNeverProposes ==
   /\ revoked \cap Range(alist) = {}
